@@ -113,9 +113,12 @@ structure Sim (c : Cache K V) (s : Ref K V) : Prop where
   sorted : Sorted s.stamp c.ring
   bound : ∀ k ∈ keys c.ring, s.stamp k < s.now
 
+theorem Sim.initP (lru : Bool) (max : Nat) (om : Option (K → OmRes V)) (h : 1 ≤ max) :
+    Sim (Cache.initP lru max om) (Ref.initP lru max om) :=
+  ⟨rfl, rfl, rfl, rfl, rfl, rfl, rfl, rfl, Inv.initP lru max om h, List.Pairwise.nil, by simp [Cache.initP]⟩
+
 theorem Sim.init (lru : Bool) (max : Nat) (om : Option (K → V)) (h : 1 ≤ max) :
-    Sim (Cache.init lru max om) (Ref.init lru max om) :=
-  ⟨rfl, rfl, rfl, rfl, rfl, rfl, rfl, rfl, Inv.init lru max om h, List.Pairwise.nil, by simp [Cache.init]⟩
+    Sim (Cache.init lru max om) (Ref.init lru max om) := Sim.initP lru max _ h
 
 theorem not_mem_keys_eraseKey (k : K) (l : List (K × V)) (hn : (keys l).Nodup) : k ∉ keys (eraseKey k l) :=
   (lookup_none_iff _ _).1 (lookup_eraseKey_self k l hn)
@@ -211,6 +214,7 @@ inductive OutSim : Out K V (Cache K V) → Out K V (Ref K V) → Prop where
   | none : OutSim .none .none
   | val (v : V) : OutSim (.val v) (.val v)
   | keyError : OutSim .keyError .keyError
+  | raised : OutSim .raised .raised
   | item (k : K) (v : V) : OutSim (.item k v) (.item k v)
   | bool (b : Bool) : OutSim (.bool b) (.bool b)
   | nat (n : Nat) : OutSim (.nat n) (.nat n)
@@ -242,10 +246,20 @@ theorem Cache.getitem_miss {c : Cache K V} {k : K} (hk : lookup k c.ring = none)
     c.getitem k = ({ c with miss := c.miss + 1 }, .keyError) := by
   unfold Cache.getitem; rw [hk, hom]
 
-theorem Cache.getitem_onMiss {c : Cache K V} {k : K} {f : K → V} (hk : lookup k c.ring = none)
-    (hom : c.onMiss = some f) :
-    c.getitem k = (({ c with miss := c.miss + 1, omLog := c.omLog ++ [k] } : Cache K V).setitem k (f k), .val (f k)) := by
-  unfold Cache.getitem; rw [hk, hom]
+theorem Cache.getitem_onMiss {c : Cache K V} {k : K} {f : K → OmRes V} {v : V} (hk : lookup k c.ring = none)
+    (hom : c.onMiss = some f) (hf : f k = .ret v) :
+    c.getitem k = (({ c with miss := c.miss + 1, omLog := c.omLog ++ [k] } : Cache K V).setitem k v, .val v) := by
+  unfold Cache.getitem; rw [hk, hom]; simp only [hf]
+
+theorem Cache.getitem_onMiss_keyError {c : Cache K V} {k : K} {f : K → OmRes V} (hk : lookup k c.ring = none)
+    (hom : c.onMiss = some f) (hf : f k = .keyError) :
+    c.getitem k = ({ c with miss := c.miss + 1, omLog := c.omLog ++ [k] }, .keyError) := by
+  unfold Cache.getitem; rw [hk, hom]; simp only [hf]
+
+theorem Cache.getitem_onMiss_error {c : Cache K V} {k : K} {f : K → OmRes V} (hk : lookup k c.ring = none)
+    (hom : c.onMiss = some f) (hf : f k = .error) :
+    c.getitem k = ({ c with miss := c.miss + 1, omLog := c.omLog ++ [k] }, .raised) := by
+  unfold Cache.getitem; rw [hk, hom]; simp only [hf]
 
 theorem Ref.lookup_hit {s : Ref K V} {k : K} {v : V} (hk : C02.lookup k s.ents = some v) :
     s.lookup k = (if s.lru then { s with hit := s.hit + 1, stamp := setStamp s.stamp k s.now, now := s.now + 1 }
@@ -256,10 +270,35 @@ theorem Ref.lookup_miss {s : Ref K V} {k : K} (hk : C02.lookup k s.ents = none) 
     s.lookup k = ({ s with miss := s.miss + 1 }, .keyError) := by
   unfold Ref.lookup; rw [hk, hom]
 
-theorem Ref.lookup_onMiss {s : Ref K V} {k : K} {f : K → V} (hk : C02.lookup k s.ents = none)
-    (hom : s.onMiss = some f) :
-    s.lookup k = (({ s with miss := s.miss + 1, omLog := s.omLog ++ [k] } : Ref K V).assign k (f k), .val (f k)) := by
-  unfold Ref.lookup; rw [hk, hom]
+theorem Ref.lookup_onMiss {s : Ref K V} {k : K} {f : K → OmRes V} {v : V} (hk : C02.lookup k s.ents = none)
+    (hom : s.onMiss = some f) (hf : f k = .ret v) :
+    s.lookup k = (({ s with miss := s.miss + 1, omLog := s.omLog ++ [k] } : Ref K V).assign k v, .val v) := by
+  unfold Ref.lookup; rw [hk, hom]; simp only [hf]
+
+theorem Ref.lookup_onMiss_keyError {s : Ref K V} {k : K} {f : K → OmRes V} (hk : C02.lookup k s.ents = none)
+    (hom : s.onMiss = some f) (hf : f k = .keyError) :
+    s.lookup k = ({ s with miss := s.miss + 1, omLog := s.omLog ++ [k] }, .keyError) := by
+  unfold Ref.lookup; rw [hk, hom]; simp only [hf]
+
+theorem Ref.lookup_onMiss_error {s : Ref K V} {k : K} {f : K → OmRes V} (hk : C02.lookup k s.ents = none)
+    (hom : s.onMiss = some f) (hf : f k = .error) :
+    s.lookup k = ({ s with miss := s.miss + 1, omLog := s.omLog ++ [k] }, .raised) := by
+  unfold Ref.lookup; rw [hk, hom]; simp only [hf]
+
+/-- the state after a lookup of an absent key whose on_miss call raised (or: bookkeeping before
+    the value is stored) -/
+theorem Sim.missed {c : Cache K V} {s : Ref K V} (h : Sim c s) (k : K) :
+    Sim ({ c with miss := c.miss + 1, omLog := c.omLog ++ [k] } : Cache K V)
+        ({ s with miss := s.miss + 1, omLog := s.omLog ++ [k] } : Ref K V) :=
+  ⟨h.lru, h.max, h.om, h.d, h.hit, congrArg (· + 1) h.miss, h.soft, congrArg (· ++ [k]) h.log,
+    ⟨h.inv.sync, h.inv.cap, h.inv.pos, Nat.le_succ_of_le h.inv.soft_le⟩, h.sorted, h.bound⟩
+
+/-- … and with the soft miss counted by get / setdefault on top -/
+theorem Sim.missedSoft {c : Cache K V} {s : Ref K V} (h : Sim c s) (k : K) :
+    Sim ({ c with miss := c.miss + 1, soft := c.soft + 1, omLog := c.omLog ++ [k] } : Cache K V)
+        ({ s with miss := s.miss + 1, soft := s.soft + 1, omLog := s.omLog ++ [k] } : Ref K V) :=
+  ⟨h.lru, h.max, h.om, h.d, h.hit, congrArg (· + 1) h.miss, congrArg (· + 1) h.soft, congrArg (· ++ [k]) h.log,
+    ⟨h.inv.sync, h.inv.cap, h.inv.pos, Nat.succ_le_succ h.inv.soft_le⟩, h.sorted, h.bound⟩
 
 theorem Sim.getitem {c : Cache K V} {s : Ref K V} (h : Sim c s) (k : K) :
     Sim (c.getitem k).1 (s.lookup k).1 ∧ OutSim (c.getitem k).2 (s.lookup k).2 := by
@@ -286,11 +325,16 @@ theorem Sim.getitem {c : Cache K V} {s : Ref K V} (h : Sim c s) (k : K) :
       exact ⟨⟨h.lru, h.max, h.om, h.d, h.hit, congrArg (· + 1) h.miss, h.soft, h.log,
         ⟨h.inv.sync, h.inv.cap, h.inv.pos, Nat.le_succ_of_le h.inv.soft_le⟩, h.sorted, h.bound⟩, OutSim.keyError⟩
     | some f =>
-      rw [Cache.getitem_onMiss hk hom, Ref.lookup_onMiss (hl ▸ hk) (h.om ▸ hom)]
-      refine ⟨?_, OutSim.val _⟩
-      apply Sim.setitem
-      exact ⟨h.lru, h.max, h.om, h.d, h.hit, congrArg (· + 1) h.miss, h.soft, congrArg (· ++ [k]) h.log,
-        ⟨h.inv.sync, h.inv.cap, h.inv.pos, Nat.le_succ_of_le h.inv.soft_le⟩, h.sorted, h.bound⟩
+      cases hf : f k with
+      | ret v =>
+        rw [Cache.getitem_onMiss hk hom hf, Ref.lookup_onMiss (hl ▸ hk) (h.om ▸ hom) hf]
+        exact ⟨(h.missed k).setitem k v, OutSim.val _⟩
+      | keyError =>
+        rw [Cache.getitem_onMiss_keyError hk hom hf, Ref.lookup_onMiss_keyError (hl ▸ hk) (h.om ▸ hom) hf]
+        exact ⟨h.missed k, OutSim.keyError⟩
+      | error =>
+        rw [Cache.getitem_onMiss_error hk hom hf, Ref.lookup_onMiss_error (hl ▸ hk) (h.om ▸ hom) hf]
+        exact ⟨h.missed k, OutSim.raised⟩
 
 theorem Sim.setAll {c : Cache K V} {s : Ref K V} (h : Sim c s) (l : List (K × V)) :
     Sim (c.setAll l) (s.assignAll l) := by
@@ -339,10 +383,20 @@ theorem Sim.step {c : Cache K V} {s : Ref K V} (h : Sim c s) (op : Op K V) :
         exact ⟨⟨h.lru, h.max, h.om, h.d, h.hit, congrArg (· + 1) h.miss, congrArg (· + 1) h.soft, h.log,
           ⟨h.inv.sync, h.inv.cap, h.inv.pos, Nat.succ_le_succ h.inv.soft_le⟩, h.sorted, h.bound⟩, OutSim.val _⟩
       | some f =>
-        have := h.getitem k
-        rw [Cache.getitem_onMiss hk hom, Ref.lookup_onMiss (hl k ▸ hk) (h.om ▸ hom)] at this
-        simp only [C02.step, Ref.step, Cache.getitem_onMiss hk hom, Ref.lookup_onMiss (hl k ▸ hk) (h.om ▸ hom)]
-        exact this
+        cases hf : f k with
+        | ret v =>
+          have := h.getitem k
+          rw [Cache.getitem_onMiss hk hom hf, Ref.lookup_onMiss (hl k ▸ hk) (h.om ▸ hom) hf] at this
+          simp only [C02.step, Ref.step, Cache.getitem_onMiss hk hom hf, Ref.lookup_onMiss (hl k ▸ hk) (h.om ▸ hom) hf]
+          exact this
+        | keyError =>
+          simp only [C02.step, Ref.step, Cache.getitem_onMiss_keyError hk hom hf,
+            Ref.lookup_onMiss_keyError (hl k ▸ hk) (h.om ▸ hom) hf]
+          exact ⟨h.missedSoft k, OutSim.val _⟩
+        | error =>
+          simp only [C02.step, Ref.step, Cache.getitem_onMiss_error hk hom hf,
+            Ref.lookup_onMiss_error (hl k ▸ hk) (h.om ▸ hom) hf]
+          exact ⟨h.missed k, OutSim.raised⟩
   | setdefault k dflt =>
     cases hk : lookup k c.ring with
     | some v =>
@@ -359,10 +413,20 @@ theorem Sim.step {c : Cache K V} {s : Ref K V} (h : Sim c s) (op : Op K V) :
         exact ⟨h.lru, h.max, h.om, h.d, h.hit, congrArg (· + 1) h.miss, congrArg (· + 1) h.soft, h.log,
           ⟨h.inv.sync, h.inv.cap, h.inv.pos, Nat.succ_le_succ h.inv.soft_le⟩, h.sorted, h.bound⟩
       | some f =>
-        have := h.getitem k
-        rw [Cache.getitem_onMiss hk hom, Ref.lookup_onMiss (hl k ▸ hk) (h.om ▸ hom)] at this
-        simp only [C02.step, Ref.step, Cache.getitem_onMiss hk hom, Ref.lookup_onMiss (hl k ▸ hk) (h.om ▸ hom)]
-        exact this
+        cases hf : f k with
+        | ret v =>
+          have := h.getitem k
+          rw [Cache.getitem_onMiss hk hom hf, Ref.lookup_onMiss (hl k ▸ hk) (h.om ▸ hom) hf] at this
+          simp only [C02.step, Ref.step, Cache.getitem_onMiss hk hom hf, Ref.lookup_onMiss (hl k ▸ hk) (h.om ▸ hom) hf]
+          exact this
+        | keyError =>
+          simp only [C02.step, Ref.step, Cache.getitem_onMiss_keyError hk hom hf,
+            Ref.lookup_onMiss_keyError (hl k ▸ hk) (h.om ▸ hom) hf]
+          exact ⟨(h.missedSoft k).setitem k dflt, OutSim.val _⟩
+        | error =>
+          simp only [C02.step, Ref.step, Cache.getitem_onMiss_error hk hom hf,
+            Ref.lookup_onMiss_error (hl k ▸ hk) (h.om ▸ hom) hf]
+          exact ⟨h.missed k, OutSim.raised⟩
   | update e kw => exact ⟨h.update e kw, OutSim.none⟩
   | ior e => exact ⟨h.update e [], OutSim.none⟩
   | pop k dflt =>
@@ -472,6 +536,7 @@ theorem WSim.step {w : List (Cache K V)} {ws : List (Ref K V)} (h : WSim w ws) (
           | none => exact ⟨hset, OutSim.none⟩
           | val v => exact ⟨hset, OutSim.val v⟩
           | keyError => exact ⟨hset, OutSim.keyError⟩
+          | raised => exact ⟨hset, OutSim.raised⟩
           | item k v => exact ⟨hset, OutSim.item k v⟩
           | bool b => exact ⟨hset, OutSim.bool b⟩
           | nat n => exact ⟨hset, OutSim.nat n⟩
